@@ -20,6 +20,8 @@
  * IN THE SOFTWARE.
  */
 
+#include <QUrl>
+
 #include <qhttpengine/parser.h>
 
 #include "proxysocket.h"
@@ -64,12 +66,18 @@ void ProxySocket::onDownstreamDisconnected()
 
 void ProxySocket::onUpstreamConnected()
 {
-    // Write the status line using the stripped path from the handler
+    // Write the status line using the stripped path from the handler - the
+    // path was percent-decoded by the socket and has to be encoded again (it
+    // may contain spaces or line breaks); the query string is passed on as
+    // the client sent it
+    QByteArray target = "/" + QUrl::toPercentEncoding(mPath, "/:@!$&'()*+,;=");
+    QByteArray rawPath = mDownstreamSocket->rawPath();
+    int queryIndex = rawPath.indexOf('?');
+    if (queryIndex != -1) {
+        target += rawPath.mid(queryIndex);
+    }
     mUpstreamSocket.write(
-        QString("%1 /%2 HTTP/1.1\r\n")
-            .arg(methodToString(mDownstreamSocket->method()))
-            .arg(mPath)
-            .toUtf8()
+        methodToString(mDownstreamSocket->method()).toUtf8() + " " + target + " HTTP/1.1\r\n"
     );
 
     // Use the existing headers but insert proxy-related ones
